@@ -1,4 +1,5 @@
 """C13 - I/O failures surface as errors and leave no half-bound pid."""
+import itertools
 import os
 
 from .. import common, fault, fsi, gen, scen, seq
@@ -55,12 +56,13 @@ def run_case(case, ctx):
     bound0 = sc.served0[("obj", scen.T)]
     errnos = ("EIO",) if ctx.tier == "quick" else ("EIO", "ENOSPC", "EACCES")
     ctx.evaluations -= 1
-    for inj, store, d, out in fault.faulted_runs(sc, errnos=errnos):
+    runs = itertools.chain(fault.faulted_runs(sc, errnos=errnos), fault.faulted_runs(sc, modes=("full",), errnos=("ENOSPC",)))
+    for inj, store, d, out in runs:
         ctx.count()
         ev = inj.fired
         where = f"{case['kind']} with {inj.describe()}"
         pc = fault.path_class(d, ev)
-        mode = "sticky" if inj.sticky else "one-off"
+        mode = "disk-full" if inj.sticky == "full" else "sticky" if inj.sticky else "one-off"
         sig = {"call": case["kind"], "op": tgt["op"], "path_class": pc, "mode": mode, "site": ev.kind}
         a = common.alpha(d, cfg)
         oc = "ok" if is_ok(out) else out[1]
